@@ -27,6 +27,8 @@ def run(ctx):
     from ..engines import varkind as V
     V.v1_children_map_builders(ctx)
     V.v6_derived_constructors(ctx)
+    V.v10_param_map(ctx)
+    ctx.floor("V10", 3)
     ctx.floor("V6", 8)
     ctx.floor("V1", 14)
     ctx.floor("M1", 4)
